@@ -22,6 +22,11 @@ pub type Outcome = (&'static str, Option<String>);
 impl Pending {
     /// `reader`: a stream on which nothing more will arrive; `writer`: a stream whose credit is exhausted.
     pub fn spawn(sh: &Sh, mux: &Arc<Mux>, reader: Option<MuxStream>, writer: Option<MuxStream>, binds_enabled: bool) -> Self {
+        Self::spawn_opt(sh, mux, reader, writer, binds_enabled, true)
+    }
+
+    /// `with_accept = false`: leave the accept queue alone (scenarios that need it to stay full)
+    pub fn spawn_opt(sh: &Sh, mux: &Arc<Mux>, reader: Option<MuxStream>, writer: Option<MuxStream>, binds_enabled: bool, with_accept: bool) -> Self {
         let mut handles: Vec<(&'static str, JoinHandle<Option<String>>)> = Vec::new();
         if let Some(mut s) = reader {
             handles.push(("read", sim::spawn(sh, 9001, async move {
@@ -59,6 +64,7 @@ impl Pending {
             }
         })));
         let m = mux.clone();
+        if with_accept {
         handles.push(("accept", sim::spawn(sh, 9004, async move {
             let mut n = 0;
             loop {
@@ -68,6 +74,7 @@ impl Pending {
                 }
             }
         })));
+        }
         let m = mux.clone();
         handles.push(("get_datagram", sim::spawn(sh, 9005, async move {
             let mut n = 0;
